@@ -21,6 +21,7 @@ package main
 
 import (
 	"fmt"
+	"os"
 	"sort"
 	"strings"
 	"time"
@@ -88,13 +89,38 @@ func c05Canon(v interface{}, d int) string {
 	return evCanonD(v, d)
 }
 
-// call frames as the real code builds them (hook point func.frame in function.Run, hooks/C05.patch: called after the
-// parameters are bound and the frame is linked): scope name, name of the scope it is linked to, and the names it
-// holds at that moment (sorted). c05FrameHook is false on a tree without the hook: the F section then says so.
+// call frames as the real code builds them (hook point func.frame in function.Run: called after the parameters are
+// bound and the frame is linked). Reported per frame, STRUCTURALLY (no display names): the kinds of the scopes from
+// the one the frame is really linked to up to the first call frame or root — b = block scope, f = a call frame,
+// g = the global scope of the case, r = another root — and the names the frame holds at that moment (sorted).
+// c05HookState: "seen" (hook present and reporting), "absent" (no call site in the tree), "silent" (the tree has a
+// func.frame call site but the probe call did not reach it: reported loudly, never skipped).
 var (
-	c05Frames    []string
-	c05FrameHook bool
+	c05Frames      []string
+	c05FrameScopes []parser.Scope
+	c05Global      parser.Scope
+	c05HookState   = "absent"
 )
+
+func c05ScopeChain(sc parser.Scope) string {
+	var kinds []string
+	for depth := 0; sc != nil && depth < 50; depth++ {
+		for _, f := range c05FrameScopes {
+			if f == sc {
+				return strings.Join(append(kinds, "f"), ".")
+			}
+		}
+		if sc.Parent() == nil {
+			if sc == c05Global {
+				return strings.Join(append(kinds, "g"), ".")
+			}
+			return strings.Join(append(kinds, "r"), ".")
+		}
+		kinds = append(kinds, "b")
+		sc = sc.Parent()
+	}
+	return strings.Join(append(kinds, "?"), ".")
+}
 
 func c05FrameHandler(point string, args ...interface{}) {
 	if point != "func.frame" || len(args) < 2 {
@@ -104,21 +130,29 @@ func c05FrameHandler(point string, args ...interface{}) {
 	if !ok || fvs.Parent() == nil {
 		return
 	}
-	decl := fvs.Parent() // the scope the frame is REALLY linked to
 	var names []string
 	for k := range scope.ToObject(fvs) {
 		names = append(names, hx(fmt.Sprint(k)))
 	}
 	sort.Strings(names)
-	c05Frames = append(c05Frames, hx(fvs.Name())+">"+hx(decl.Name())+"["+strings.Join(names, ",")+"]")
+	c05Frames = append(c05Frames, c05ScopeChain(fvs.Parent())+"["+strings.Join(names, ",")+"]")
+	c05FrameScopes = append(c05FrameScopes, fvs)
 }
 
 func c05Setup() {
 	evSetup()
 	verifhook.SetHandler(c05FrameHandler)
-	c05Frames = nil
-	c05Outcome(scope.NewScope(scope.GlobalScope), "func f() {\n}\nf()")
-	c05FrameHook = len(c05Frames) > 0
+	c05Frames, c05FrameScopes = nil, nil
+	c05Outcome(scope.NewScope(scope.GlobalScope), "func f(a) {\nlet b := a\nreturn b\n}\nf(1)")
+	src, _ := os.ReadFile(repoDir() + "/interpreter/rt_func.go")
+	switch {
+	case len(c05Frames) > 0:
+		c05HookState = "seen"
+	case strings.Contains(string(src), "verifhook.At(\"func.frame\""):
+		c05HookState = "silent"
+	default:
+		c05HookState = "absent"
+	}
 	registerX("mark", func(args []interface{}) (interface{}, error) {
 		parts := make([]string, len(args))
 		for i, a := range args {
@@ -169,8 +203,9 @@ func c05LogFrom(i int) (string, int) {
 // section after a probe that left the model); props/C05.py compares section by section and accepts U.
 func c05Run(payload string) string {
 	evLog.reset()
-	c05Frames = nil
+	c05Frames, c05FrameScopes = nil, nil
 	vs := scope.NewScope(scope.GlobalScope)
+	c05Global = vs
 	var outs []string
 	n := 0
 	for i, sec := range strings.Split(payload, c05Sep) {
@@ -182,8 +217,11 @@ func c05Run(payload string) string {
 		lg, n = c05LogFrom(n)
 		if i == 0 {
 			fr := "F nohook"
-			if c05FrameHook {
+			switch c05HookState {
+			case "seen":
 				fr = "F " + strings.Join(c05Frames, "|")
+			case "silent":
+				fr = "F HOOK-PRESENT-BUT-SILENT (rt_func.go has a func.frame call site that a plain call does not reach)"
 			}
 			outs = append(outs, out, "G "+c05Dump(vs), "LOG "+lg, fr)
 		} else {
